@@ -39,17 +39,20 @@ def tree_diff(t0, t1, as_multiset=False):
 
 
 def annotation_case(args):
-    rep, complete, cache, scratch = args
+    rep, complete, cache, scratch = args[:4]
+    style = args[4] if len(args) > 4 else "plain"     # how the GTF is written (record order, extra record types and attributes)
     from vlib import syn, run
     w = the_world()
-    d = os.path.join(scratch, "c12a_%s_%d_%s" % (rep.replace(".", ""), complete, cache))
+    d = os.path.join(scratch, "c12a_%s_%d_%s_%s" % (rep.replace(".", ""), complete, cache, style))
     shutil.rmtree(d, ignore_errors=True)
     paths = syn.materialise(w, d)
+    if style != "plain":
+        syn.write_gtf(w, paths["gtf"], style=style)
     # reference run: plain gtf, --complete_genedb, fresh home
     ref_out = os.path.join(d, "ref")
     rc = run.run_isoquant(run.base_argv(paths, ref_out), paths["home"], os.path.join(d, "ref.txt"))
     if rc != 0:
-        return args[:3], [("reference-run-failed", "exit %d" % rc)]
+        return args[:3] + (style,), [("reference-run-failed", "exit %d (%s style)" % (rc, style))]
     t0 = run.read_tree(os.path.join(ref_out, "OUT"))
     ann = paths["gtf"]
     if rep == "gtf.gz":
@@ -105,9 +108,9 @@ def annotation_case(args):
             errs.append(("cache-not-used", "second run did not reuse the converted annotation (harness expectation)"))
         t1 = run.read_tree(os.path.join(out, "OUT"))
         for k, what in tree_diff(t0, t1):
-            errs.append(("annotation:%s" % k.split("OUT.")[-1], "annotation as %s complete=%d cache=%s: %s %s" % (rep, complete, cache, k, what)))
+            errs.append(("annotation:%s" % k.split("OUT.")[-1], "annotation (%s style) as %s complete=%d cache=%s: %s %s" % (style, rep, complete, cache, k, what)))
     shutil.rmtree(d, ignore_errors=True)
-    return args[:3], errs
+    return args[:3] + (style,), errs
 
 
 CLASSES = 4
@@ -185,6 +188,11 @@ def run(ctx):
         for complete in (1, 0):
             for cache in (("fresh", "cached", "stale", "overwritten") if rep != "db" else ("fresh",)):
                 jobs.append((rep, complete, cache, ctx.scratch))
+    for style in ("ensembl", "shuffled"):
+        for rep in ("gtf", "gtf.gz", "db"):
+            for complete in (1, 0):
+                for cache in (("fresh", "cached") if (rep == "gtf" and not quick) else ("fresh",)):
+                    jobs.append((rep, complete, cache, ctx.scratch, style))
     n_ann = 0
     for key, errs in core.pmap(annotation_case, jobs):
         n_ann += 1
